@@ -12,7 +12,12 @@
         Serve(T).nread requests                                        (Agrees: machine == contract)
       - the runner's expectation Expect(T) - derived from T alone - is met by that report under
         every attribution of metadata a client API may make            (ThreeWayInv)
-      - full duplex really is ping-pong, half duplex really is upload-then-respond  (OrderFull, OrderHalf)  *)
+      - full duplex really is ping-pong, half duplex really is upload-then-respond  (OrderFull, OrderHalf)
+      - counters only grow and the client never receives again once it has seen the end of the
+        response stream                                         (Monotone, NoReceiveAfterEnd)
+   MC_Echo_x_flag.cfg (expected to FAIL) admits a full_duplex flag in the first message that
+   contradicts the stream type: the documented client and server rules then disagree - the reason
+   WellFormed demands that they match. *)
 EXTENDS EchoCases, TLC
 
 (* ------------------------------ state ------------------------------ *)
@@ -176,6 +181,11 @@ OrderFull == (tc.st = "full" /\ spc = "recv") => ssent <= sread /\ (sfd => sread
 OrderHalf == (tc.st \in {"client", "half"} /\ spc = "recv" /\ ~sfd) => (ssent = 0 /\ s2c = <<>>)
 \* the client never has two unanswered requests in flight in full duplex
 OneInFlight == tc.st = "full" => Len(cres.payloads) >= ci - 1
+\* action properties: counters only grow, and once the client has seen the end of the response
+\* stream (error or end-of-stream sentinel) it never receives again - it only half-closes
+Monotone == [][/\ ssent' >= ssent /\ sread' >= sread /\ ci' >= ci
+              /\ Len(cres'.payloads) >= Len(cres.payloads) /\ (cend => cend')]_vars
+NoReceiveAfterEnd == [][cend => (cres' = cres /\ Len(s2c') >= Len(s2c))]_vars
 \* requests the server never read are exactly those the contract leaves unread
 Unread == Done => Len(SelectSeq(c2s, LAMBDA x : x.k = "req")) + sread <= N
 =============================================================================
